@@ -7,7 +7,7 @@ import itertools
 import networkx as nx
 import dynetx as dn
 
-from .core import Model, histories, run_history, state_key, Collector, NODES, T_LO, T_HI, qs_of
+from .core import Model, histories, run_history, state_key, Collector, NODES, T_LO, T_HI, qs_of, sorted
 from .parts_core import QS, dump, check_canonical, check_snapshots, check_stream, timelines
 
 
@@ -175,7 +175,12 @@ def compare_queries(G, M, q, col, cls, removal, h, prefix='C02', light=False):
         _cmp(col, prefix + '.nodes_data', cls, removal, h, 'nodes(%s,data=True)' % tq,
              _try(lambda: sorted((n, sorted(d.items())) for n, d in G.nodes(t=q, data=True))),
              sorted((n, sorted(G._node[n].items())) for n in exp_nodes))
-        for n in nodes_all + [9]:
+        odd = [9]
+        if len(nodes_all) >= 2:
+            odd += [tuple(nodes_all[:2]), tuple(reversed(nodes_all[:2]))]          # not a node, but an iterable of nodes
+            if all(isinstance(x, str) for x in nodes_all[:2]):
+                odd.append(''.join(nodes_all[:2]))
+        for n in nodes_all + [x for x in odd if x not in G._node]:
             _cmp(col, prefix + '.has_node', cls, removal, h, 'has_node(%r,%s)' % (n, tq), _try(lambda: bool(G.has_node(n, t=q))), n in S)
     # ---- counts
     m = S.number_of_edges()
@@ -213,7 +218,7 @@ def c02_queries(tier, seed):
                     'nodes; every query entry point (methods and dn.* forms, nbunch subsets with an unknown node) at every t in -1..6 and t=None compared '
                     'with networkx on the static graph {(u,v): present at t}; non-trivial = distinct (state) with an interaction', max_violations=6)
     n_states = 0
-    for cls, removal, h in histories(tier, seed, modes=(True, False), n_random=300 if tier == 'quick' else 3000):
+    for cls, removal, h in histories(tier, seed, odd_ids=True, modes=(True, False), n_random=300 if tier == 'quick' else 3000):
         G, M, outs = run_history(cls, removal, h)
         if any(o[0] != o[1] for o in outs):
             continue
@@ -229,7 +234,7 @@ def c02_queries(tier, seed):
             exp = [q for q in M.instants() if any(n in k for k in M.edges_at(q))]
             if not removal:
                 continue
-            _cmp(col, 'C02.get_node_snapshots', cls, removal, h, 'get_node_snapshots(%r)' % n, _try(lambda: G.get_node_snapshots(n)), exp)
+            _cmp(col, 'C02.get_node_snapshots', cls, removal, h, 'get_node_snapshots(%r)' % (n,), _try(lambda: G.get_node_snapshots(n)), exp)
         if n_states > (1600 if tier == 'quick' else 12000):
             break
     return col.result(bound='<=3 nodes (+1 isolated), instants 0..4 (also shifted by -3 / +1000, and 2-node histories over 0..12), histories <=7 calls, both modes, t around every instant and None')
@@ -253,7 +258,7 @@ def c06_time_slice(tier, seed):
                     'well formed (C03, C04, C05 oracles), slice of slice = slice by intersection, t_to<t_from raises ValueError; '
                     'non-trivial = distinct (state, window) with an interaction in G', max_violations=8)
     n_states = 0
-    for cls, removal, h in histories(tier, seed, n_random=300 if tier == 'quick' else 3000):
+    for cls, removal, h in histories(tier, seed, odd_ids=True, n_random=300 if tier == 'quick' else 3000):
         G, M, outs = run_history(cls, removal, h)
         if any(o[0] != o[1] for o in outs) or not M.keys():
             continue
@@ -263,7 +268,9 @@ def c06_time_slice(tier, seed):
         col.distinct.add(sk)
         n_states += 1
         for n in list(G._node):
-            G._node[n]['w'] = n * 10
+            G._node[n]['w'] = repr(n) * 2
+        if n_states % 3 == 0:
+            G.add_node(8, w='isolated')          # never an endpoint: must not appear in any slice
         before = dump(G)
         inst = M.instants()
         rng = range(min(inst) - 1, min(max(inst) + 3, min(inst) + 9))
@@ -303,6 +310,29 @@ def c06_time_slice(tier, seed):
                 check_stream(H, MH, col, cls, removal, h, prefix='C06.slice_well_formed')
                 if dump(dn.time_slice(G, a, b)) != dump(H):
                     col.violation('C06.functional_form', cls, removal, h, 'dn.time_slice differs from the method', window=[a, b])
+                # the two live graphs do not interfere: G still answers as before after H was queried ...
+                for k in M.keys():
+                    for q in qs_of(M)[::2]:
+                        if bool(G.has_interaction(k[0], k[1], q)) != M.present(k[0], k[1], q):
+                            col.violation('C06.source_unchanged', cls, removal, h, 'after querying the slice, G.has_interaction(%r,%r,%r) is %r' % (k[0], k[1], q, G.has_interaction(k[0], k[1], q)), window=[a, b])
+                # ... and H is a new graph: growing a run of H in place leaves G alone (and the other way round)
+                if n_states % 2 == 0 and (a, b) in ((min(inst) - 1, None), (min(inst), max(inst)), (min(inst) - 1, max(inst) + 2)):
+                    H2 = G.time_slice(a, b) if b is not None else G.time_slice(a)
+                    hb = dump(H2)
+                    for (x, y), tl_ in list(timelines(H2).items()):
+                        H2.add_interaction(x, y, tl_[-1][1] + 1, tl_[-1][1] + 3)
+                    if dump(G) != before:
+                        col.violation('C06.source_unchanged', cls, removal, h, 'extending a run of the slice changed G (the slice shares interval objects with its source)', window=[a, b])
+                        before = dump(G)
+                    H3 = G.time_slice(a, b) if b is not None else G.time_slice(a)
+                    G2 = copy.deepcopy(G)
+                    h3 = dump(H3)
+                    for (x, y), tl_ in list(timelines(G).items()):
+                        G.add_interaction(x, y, tl_[-1][1] + 1, tl_[-1][1] + 3)
+                    if dump(H3) != h3:
+                        col.violation('C06.new_graph', cls, removal, h, 'extending a run of G changed a slice taken earlier', window=[a, b])
+                    G = G2
+                    before = dump(G)
                 # slice of a slice = slice by the intersection
                 if n_states % 4 == 0:
                     for c in (a, a + 1):
@@ -344,7 +374,7 @@ def c16_conversions(tier, seed):
                     max_violations=8)
     n_states = 0
     pairs = [(1, 2), (2, 1), (1, 3), (1, 1), (3, 2)]
-    for cls, removal, h in histories(tier, seed, n_random=600 if tier == 'quick' else 6000, pairs=pairs):
+    for cls, removal, h in histories(tier, seed, odd_ids=True, n_random=600 if tier == 'quick' else 6000, pairs=pairs):
         G, M, outs = run_history(cls, removal, h)
         if any(o[0] != o[1] for o in outs) or not M.keys():
             continue
@@ -354,7 +384,7 @@ def c16_conversions(tier, seed):
         G.add_node(8, tags=['x'])
         G.graph['meta'] = {'k': [1]}
         for n in list(G._node):
-            G._node[n].setdefault('tags', ['n%s' % n])
+            G._node[n].setdefault('tags', ['n%s' % (n,)])
         before = dump(G)
         if cls == 'DynGraph':
             variants = [('to_directed', {})]
@@ -437,7 +467,7 @@ def c03_derived_constructors(tier, seed):
     tmp = tempfile.mkdtemp(prefix='c03d')
     try:
         n_states = 0
-        for cls, removal, h in histories(tier, seed, n_random=200 if tier == 'quick' else 3000):
+        for cls, removal, h in histories(tier, seed, odd_ids=True, n_random=200 if tier == 'quick' else 3000):
             G, M, outs = run_history(cls, removal, h)
             if any(o[0] != o[1] for o in outs) or not M.keys():
                 continue
